@@ -33,6 +33,29 @@ static inline const std::vector<std::pair<std::string, std::string>> & corpus() 
 	return c;
 }
 
+// OPML documents of the repository's own corpus (expected outputs of the OPML tests) - valid input for EXT_PARSE_OPML
+static inline const std::vector<std::string> & opml_corpus() {
+	static std::vector<std::string> c;
+	static bool loaded = false;
+	if (loaded) return c;
+	loaded = true;
+	const char * root = getenv("MMD6_REPO");
+	std::string dir = std::string(root ? root : "/repo") + "/tests/MMD6Tests";
+	DIR * d = opendir(dir.c_str());
+	if (!d) return c;
+	std::vector<std::string> names;
+	while (struct dirent * e = readdir(d)) { std::string n = e->d_name; if (n.size() > 5 && n.substr(n.size() - 5) == ".opml") names.push_back(n); }
+	closedir(d);
+	std::sort(names.begin(), names.end());
+	for (auto & n : names) {
+		std::ifstream f(dir + "/" + n, std::ios::binary);
+		std::stringstream ss; ss << f.rdbuf();
+		std::string s = ss.str();
+		if (s.size() <= 6000 && s.find('\0') == std::string::npos) c.push_back(s);
+	}
+	return c;
+}
+
 struct DocOpts {
 	bool meta = true, emails = true, notes = true, images = false, critic = true, toc = true, tables = true, html = true, math = true;
 	int blocks_min = 1, blocks_max = 12;
